@@ -7,6 +7,9 @@ import YkDrv.QueueDrv
 import YkDrv.CoreDrv
 import YkDrv.SortDrv
 import YkDrv.PlaceDrv
+import YkDrv.ConfDrv
+import YkDrv.UgmDrv
+import YkDrv.PreemptDrv
 open Lean YkDrv
 
 structure DrvState where
@@ -15,6 +18,8 @@ structure DrvState where
   queue : QueueSt := {}
   core : CoreSt := {}
   place : PlaceSt := {}
+  ugm : UgmSt := {}
+  preempt : PreSt := {}
 
 def dispatch (st : DrvState) (j : Json) : Except String (DrvState × String) := do
   let c ← (fld j "c") >>= jStr
@@ -22,10 +27,13 @@ def dispatch (st : DrvState) (j : Json) : Except String (DrvState × String) := 
   | "res" => pure (st, ← resStep j)
   | "ring" => let (r, v) ← ringStep st.ring j; pure ({ st with ring := r }, v)
   | "sort" => pure (st, ← sortStep j)
+  | "conf" => pure (st, ← confStep j)
   | "stream" => pure (st, ← streamStep j)
   | "core" => let (r, v) ← coreStep st.core j; pure ({ st with core := r }, v)
   | "queue" => let (r, v) ← queueStep st.queue j; pure ({ st with queue := r }, v)
   | "node" => let (r, v) ← nodeStep st.node j; pure ({ st with node := r }, v)
+  | "preempt" => let (r, v) ← preemptStep st.preempt j; pure ({ st with preempt := r }, v)
+  | "ugm" => let (r, v) ← ugmStep st.ugm j; pure ({ st with ugm := r }, v)
   | "place" => let (r, v) ← placeStep st.place j; pure ({ st with place := r }, v)
   | _ => pure (st, "bad-op")
 
